@@ -1219,18 +1219,31 @@ func (m *Machine) selectOp(fr *frame, x *ssa.Select) Value {
 	for i := range res {
 		res[i] = m.zero(tt.At(i).Type())
 	}
-	recvIdx := 2
-	chosen := -1
+	// Go picks uniformly among the ready cases: every ready case is explored (a scheduling choice).
+	var ready []int
 	for i, st := range x.States {
 		c := m.get(fr, st.Chan).(ChanVal)
 		if st.Dir == types.SendOnly {
 			if c.C != nil && !c.C.Closed && len(c.C.Q) < c.C.Cap {
+				ready = append(ready, i)
+			}
+		} else if c.C != nil && (len(c.C.Q) > 0 || c.C.Closed) {
+			ready = append(ready, i)
+		}
+	}
+	chosen := -1
+	if len(ready) > 0 {
+		chosen = ready[m.ChooseAmong(len(ready))]
+	}
+	recvIdx := 2
+	for i, st := range x.States {
+		c := m.get(fr, st.Chan).(ChanVal)
+		if st.Dir == types.SendOnly {
+			if i == chosen {
 				c.C.Q = append(c.C.Q, m.copyVal(m.get(fr, st.Send)))
-				chosen = i
-				break
 			}
 		} else {
-			if c.C != nil && (len(c.C.Q) > 0 || c.C.Closed) {
+			if i == chosen {
 				if len(c.C.Q) > 0 {
 					res[recvIdx] = c.C.Q[0]
 					c.C.Q = c.C.Q[1:]
@@ -1238,8 +1251,6 @@ func (m *Machine) selectOp(fr *frame, x *ssa.Select) Value {
 				} else {
 					res[1] = smt.False
 				}
-				chosen = i
-				break
 			}
 			recvIdx++
 		}
